@@ -80,8 +80,12 @@ Qed.
 (* ------------------------------------------------------------------ stdio of the model in a fault-free world *)
 Definition no_faults (w : world) : Prop := forall q f k, w_plan w q f k = None.
 (* errno is never negative, and a failing call other than a short fread/fwrite sets it (POSIX) *)
+(* ... and no entry is "success with errno noise" (FileModel.NOISE): the statements under plan_ok are about C libraries that leave
+   errno alone when a call succeeds; `plan_okn` below admits the noise *)
 Definition plan_ok (pl : plan) : Prop :=
-  forall q f k e s, pl q f k = Some (e, s) -> 0 <= e /\ (f <> FWRITE -> f <> FREAD -> 0 < e).
+  forall q f k e s, pl q f k = Some (e, s) -> (0 <= e /\ (f <> FWRITE -> f <> FREAD -> 0 < e)) /\ s <> NOISE.
+Definition plan_okn (pl : plan) : Prop :=
+  forall q f k e s, pl q f k = Some (e, s) -> s = NOISE \/ (0 <= e /\ (f <> FWRITE -> f <> FREAD -> 0 < e)).
 
 Record wst (w : world) (c : list Z) (fl op lg : Z) : Prop := mkWst {
   wst_node : w_node w = File c;
@@ -446,7 +450,7 @@ Lemma nf_open_file cfg P g c0 fl op lg am :
     /\ wst (g_w g') (open_content (mode_of_amode am) c0) fl (op + 1) (lg + P)
     /\ g_s0 g' = Some (mkS (mode_of_amode am) (open_pos (mode_of_amode am) c0)) /\ g_ctx g' = true.
 Proof.
-  intros H. unfold g_open.
+  intros H. unfold g_open, g_open_with, open_judge.
   assert (H0 : wst (add_ledger (g_w g) P) c0 fl op (lg + P)).
   { destruct H; constructor; cbn; auto; lia. }
   destruct (mode_of_amode am) eqn:Em.
@@ -469,7 +473,7 @@ Lemma nf_open_absent cfg P g fl op lg am :
     /\ wst (g_w g') [] fl (op + 1) (lg + P)
     /\ g_s0 g' = Some (mkS (mode_of_amode am) 0) /\ g_ctx g' = true.
 Proof.
-  intros Hn Hp Hf Ho Hl Hm. unfold g_open, g_fopen, take.
+  intros Hn Hp Hf Ho Hl Hm. unfold g_open, g_open_with, open_judge, g_fopen, fopen_nat, take.
   cbn [add_ledger w_node w_plan w_cnt w_fail w_open w_ledger]. rewrite Hp, Hn.
   destruct (mode_of_amode am) eqn:Em; [congruence| |];
     rewrite errclass_0, Z.eqb_refl, bcast_class, errclass_0;
@@ -585,18 +589,25 @@ Lemma ind_pos e : 0 < e -> ind e = 1.
 Proof. intros H. unfold ind. destruct (e =? 0) eqn:E; [apply Z.eqb_eq in E; lia|reflexivity]. Qed.
 
 Lemma plan_ok_pos pl q f k e s : plan_ok pl -> pl q f k = Some (e, s) -> f <> FWRITE -> f <> FREAD -> 0 < e.
-Proof. intros H E H1 H2. destruct (H q f k e s E) as [_ H3]. auto. Qed.
+Proof. intros H E H1 H2. destruct (H q f k e s E) as [[_ H3] _]. auto. Qed.
 Lemma plan_ok_nonneg pl q f k e s : plan_ok pl -> pl q f k = Some (e, s) -> 0 <= e.
-Proof. intros H E. destruct (H q f k e s E) as [H3 _]. auto. Qed.
+Proof. intros H E. destruct (H q f k e s E) as [[H3 _] _]. auto. Qed.
+Lemma plan_ok_not_noise pl q f k e s : plan_ok pl -> pl q f k = Some (e, s) -> (s =? NOISE) = false.
+Proof. intros H E. destruct (H q f k e s E) as [_ H3]. apply Z.eqb_neq. exact H3. Qed.
+Lemma plan_ok_okn pl : plan_ok pl -> plan_okn pl.
+Proof. intros H q f k e s E. right. apply (H q f k e s E). Qed.
+Ltac kill_noise Hp :=
+  unfold failed_errno;
+  match goal with Ef : _ = Some (_, ?sh) |- _ => rewrite ?(plan_ok_not_noise _ _ _ _ _ _ Hp Ef) end; cbv iota.
 
 Lemma acct_fopen w q m w' so e : plan_ok (w_plan w) -> g_fopen w q m = (w', so, e) ->
   facct w w' (ind e) /\ 0 <= e
   /\ (e = 0 -> so <> None /\ w_open w' = w_open w + 1 /\ w_ledger w' = w_ledger w)
   /\ (e <> 0 -> so = None /\ w_open w' = w_open w /\ w_ledger w' = w_ledger w).
 Proof.
-  intros Hp. unfold g_fopen, take. cbn [w_node w_plan w_cnt w_fail w_open w_ledger].
+  intros Hp. unfold g_fopen, fopen_nat, take. cbn [w_node w_plan w_cnt w_fail w_open w_ledger].
   destruct (w_plan w q FOPEN (w_cnt w q FOPEN)) as [[e0 s0]|] eqn:Ef.
-  - intros E. inversion E; subst.
+  - kill_noise Hp. intros E. inversion E; subst.
     assert (0 < e) by (eapply plan_ok_pos; eauto; cbv; congruence).
     split; [|split; [lia|split; [lia|]]].
     + rewrite (ind_pos e) by lia. unfold note_err. destruct (e =? 0) eqn:E0; [apply Z.eqb_eq in E0; lia|]. split; cbn; auto.
@@ -619,13 +630,13 @@ Proof.
   - intros E. inversion E; subst.
     split; [apply (facct_trans _ _ _ 0 _ F1); apply facct_note|].
     destruct (note_err_open w1 e_EBADF) as [-> ->]. cbv. repeat split; congruence.
-  - destruct (w_plan w q FWRITE (w_cnt w q FWRITE)) as [[e0 sh]|] eqn:Ef; intros E; inversion E; subst.
+  - destruct (w_plan w q FWRITE (w_cnt w q FWRITE)) as [[e0 sh]|] eqn:Ef; try kill_noise Hp; intros E; inversion E; subst.
     + assert (0 <= e) by (eapply plan_ok_nonneg; eauto).
       split; [apply (facct_trans _ _ _ 0 _ F1)|].
       * match goal with |- facct _ (note_err ?x _) _ => apply (facct_trans _ x _ 0 _); [split; cbn; auto; lia | apply facct_note] end.
       * match goal with |- context [note_err ?x e] => destruct (note_err_open x e) as [-> ->] end. cbn. repeat split; auto; lia.
     + split; [apply (facct_trans _ _ _ 0 _ F1); split; cbn; auto; lia|]. cbn. repeat split; auto; lia.
-  - destruct (w_plan w q FWRITE (w_cnt w q FWRITE)) as [[e0 sh]|] eqn:Ef; intros E; inversion E; subst.
+  - destruct (w_plan w q FWRITE (w_cnt w q FWRITE)) as [[e0 sh]|] eqn:Ef; try kill_noise Hp; intros E; inversion E; subst.
     + assert (0 <= e) by (eapply plan_ok_nonneg; eauto).
       split; [apply (facct_trans _ _ _ 0 _ F1)|].
       * match goal with |- facct _ (note_err ?x _) _ => apply (facct_trans _ x _ 0 _); [split; cbn; auto; lia | apply facct_note] end.
@@ -641,7 +652,7 @@ Proof.
   set (w1 := mkW (w_node w) (w_plan w) (bump (w_cnt w) q FREAD) (w_fail w) (w_open w) (w_ledger w)).
   assert (F1 : facct w w1 0) by (split; cbn; auto; lia).
   destruct (st_mode s) eqn:Em.
-  - destruct (w_plan w q FREAD (w_cnt w q FREAD)) as [[e0 sh]|] eqn:Ef; intros E; inversion E; subst.
+  - destruct (w_plan w q FREAD (w_cnt w q FREAD)) as [[e0 sh]|] eqn:Ef; try kill_noise Hp; intros E; inversion E; subst.
     + assert (0 <= e) by (eapply plan_ok_nonneg; eauto).
       split; [apply (facct_trans _ _ _ 0 _ F1); apply facct_note|].
       destruct (note_err_open w1 e) as [-> ->]. cbn. repeat split; auto.
@@ -667,7 +678,7 @@ Proof.
   set (w1 := mkW (w_node w) (w_plan w) (bump (w_cnt w) q FSEEK) (w_fail w) (w_open w) (w_ledger w)).
   assert (F1 : facct w w1 0) by (split; cbn; auto; lia).
   destruct (w_plan w q FSEEK (w_cnt w q FSEEK)) as [[e0 sh]|] eqn:Ef.
-  - intros E. inversion E; subst.
+  - kill_noise Hp. intros E. inversion E; subst.
     assert (0 < e) by (eapply plan_ok_pos; eauto; cbv; congruence).
     split; [apply (facct_trans _ _ _ 0 _ F1); apply facct_note|].
     destruct (note_err_open w1 e) as [-> ->]. cbn. split; [right; auto|auto].
@@ -684,7 +695,7 @@ Proof.
   intros Hp. unfold g_ftell, take. cbn [w_node w_plan w_cnt w_fail w_open w_ledger].
   set (w1 := mkW (w_node w) (w_plan w) (bump (w_cnt w) q FTELL) (w_fail w) (w_open w) (w_ledger w)).
   assert (F1 : facct w w1 0) by (split; cbn; auto; lia).
-  destruct (w_plan w q FTELL (w_cnt w q FTELL)) as [[e0 sh]|] eqn:Ef; intros E; inversion E; subst.
+  destruct (w_plan w q FTELL (w_cnt w q FTELL)) as [[e0 sh]|] eqn:Ef; try kill_noise Hp; intros E; inversion E; subst.
   - assert (0 < e) by (eapply plan_ok_pos; eauto; cbv; congruence).
     split; [apply (facct_trans _ _ _ 0 _ F1); apply facct_note|].
     destruct (note_err_open w1 e) as [-> ->]. cbn. split; [right; auto|auto].
@@ -698,7 +709,7 @@ Proof.
   intros Hp. unfold g_fflush, take. cbn [w_node w_plan w_cnt w_fail w_open w_ledger].
   set (w1 := mkW (w_node w) (w_plan w) (bump (w_cnt w) q FFLUSH) (w_fail w) (w_open w) (w_ledger w)).
   assert (F1 : facct w w1 0) by (split; cbn; auto; lia).
-  destruct (w_plan w q FFLUSH (w_cnt w q FFLUSH)) as [[e0 sh]|] eqn:Ef; intros E; inversion E; subst.
+  destruct (w_plan w q FFLUSH (w_cnt w q FFLUSH)) as [[e0 sh]|] eqn:Ef; try kill_noise Hp; intros E; inversion E; subst.
   - assert (0 < e) by (eapply plan_ok_pos; eauto; cbv; congruence).
     split; [apply (facct_trans _ _ _ 0 _ F1); apply facct_note|].
     destruct (note_err_open w1 e) as [-> ->]. cbn. split; [right; auto|auto].
@@ -712,7 +723,7 @@ Proof.
   intros Hp. unfold g_fclose, take. cbn [w_node w_plan w_cnt w_fail w_open w_ledger].
   set (w1 := mkW (w_node w) (w_plan w) (bump (w_cnt w) q FCLOSE) (w_fail w) (w_open w) (w_ledger w)).
   assert (F1 : facct w w1 0) by (split; cbn; auto; lia).
-  destruct (w_plan w q FCLOSE (w_cnt w q FCLOSE)) as [[e0 sh]|] eqn:Ef; intros E; inversion E; subst.
+  destruct (w_plan w q FCLOSE (w_cnt w q FCLOSE)) as [[e0 sh]|] eqn:Ef; try kill_noise Hp; intros E; inversion E; subst.
   - assert (0 < e) by (eapply plan_ok_pos; eauto; cbv; congruence).
     split; [apply (facct_trans _ _ _ 0 _ F1)|].
     + match goal with |- facct _ (note_err ?x _) _ => apply (facct_trans _ x _ 0 _); [split; cbn; auto; lia | apply facct_note] end.
@@ -901,7 +912,31 @@ Proof.
   intros H. unfold ranks. destruct (Z.to_nat P) eqn:E; [lia|]. cbn. congruence.
 Qed.
 
-Lemma open_spec cfg P g am g' cls : 0 < P -> plan_ok (w_plan (g_w g)) ->
+(* fopen under a plan that may contain errno noise: the returned stream decides, not errno *)
+Lemma acct_fopen_n w q m w' so e : plan_okn (w_plan w) -> g_fopen w q m = (w', so, e) ->
+  w_plan w' = w_plan w
+  /\ (so <> None -> w_fail w' = w_fail w /\ w_open w' = w_open w + 1 /\ w_ledger w' = w_ledger w)
+  /\ (so = None -> 0 < e /\ w_fail w' = w_fail w + 1 /\ w_open w' = w_open w /\ w_ledger w' = w_ledger w).
+Proof.
+  intros Hp. unfold g_fopen, take. cbn [w_node w_plan w_cnt w_fail w_open w_ledger].
+  assert (Hnat : forall ne, fopen_nat (mkW (w_node w) (w_plan w) (bump (w_cnt w) q FOPEN) (w_fail w) (w_open w) (w_ledger w)) m ne = (w', so, e) ->
+    w_plan w' = w_plan w
+    /\ (so <> None -> w_fail w' = w_fail w /\ w_open w' = w_open w + 1 /\ w_ledger w' = w_ledger w)
+    /\ (so = None -> 0 < e /\ w_fail w' = w_fail w + 1 /\ w_open w' = w_open w /\ w_ledger w' = w_ledger w)).
+  { intros ne. unfold fopen_nat. cbn [w_node].
+    destruct (w_node w) eqn:En; destruct m; intros E; inversion E; subst; cbn;
+      (split; [reflexivity|split; intros H0; try congruence; repeat split; cbn; auto; try lia; try (cbv; reflexivity)]). }
+  destruct (w_plan w q FOPEN (w_cnt w q FOPEN)) as [[e0 sh]|] eqn:Ef; [|apply Hnat].
+  destruct (sh =? NOISE) eqn:En; [apply Hnat|].
+  intros E. inversion E; subst.
+  destruct (Hp _ _ _ _ _ Ef) as [Hn | [_ H1]]; [apply Z.eqb_neq in En; contradiction|].
+  assert (0 < e) by (apply H1; cbv; congruence).
+  unfold note_err. rewrite (proj2 (Z.eqb_neq e 0)) by lia. cbn.
+  split; [reflexivity|split; [congruence|intros _; repeat split; auto; lia]].
+Qed.
+
+(* also when the C library leaves errno set after a successful fopen (plan_okn): the class is decided by the stream *)
+Lemma open_spec cfg P g am g' cls : 0 < P -> plan_okn (w_plan (g_w g)) ->
   g_open cfg P g am = (g', cls) ->
   agree cls /\ cls <> []
   /\ ((forall x, In x cls -> x = SUCCESS cfg) <-> w_fail (g_w g') = w_fail (g_w g))
@@ -910,12 +945,12 @@ Lemma open_spec cfg P g am g' cls : 0 < P -> plan_ok (w_plan (g_w g)) ->
   /\ (~ (forall x, In x cls -> x = SUCCESS cfg) ->
         g_ctx g' = false /\ g_s0 g' = None /\ w_ledger (g_w g') = w_ledger (g_w g) /\ w_open (g_w g') = w_open (g_w g)).
 Proof.
-  intros HP Hp. unfold g_open.
-  destruct (g_fopen (add_ledger (g_w g) P) 0 (mode_of_amode am)) as [[w1 so] e] eqn:Eo.
-  assert (Hp0 : plan_ok (w_plan (add_ledger (g_w g) P))) by exact Hp.
-  destruct (acct_fopen _ _ _ _ _ _ Hp0 Eo) as (F & N & Z0 & Z1). cbn [add_ledger w_open w_ledger w_fail w_plan] in *.
-  destruct F as [_ F]. cbn [add_ledger w_fail] in F.
+  intros HP Hp. unfold g_open, g_open_with.
+  destruct (g_fopen (add_ledger (g_w g) P) 0 (mode_of_amode am)) as [[w1 so] e0] eqn:Eo.
+  assert (Hp0 : plan_okn (w_plan (add_ledger (g_w g) P))) by exact Hp.
+  destruct (acct_fopen_n _ _ _ _ _ _ Hp0 Eo) as (_ & Z0 & Z1). cbn [add_ledger w_open w_ledger w_fail w_plan] in *.
   pose proof (ranks_nonempty P HP) as Hr.
+  set (e := open_judge (match so with Some _ => true | None => false end) e0).
   assert (Hall : forall cl, (forall x, In x (map (errclass cfg) (bcast_all P e)) -> x = cl) <-> errclass cfg e = cl).
   { intros cl. rewrite bcast_class. split.
     - intros H. destruct (ranks P) as [|r rs]; [congruence|]. apply H. left. reflexivity.
@@ -924,21 +959,37 @@ Proof.
   { rewrite bcast_class. intros x y Hx Hy. apply in_map_iff in Hx, Hy. destruct Hx as (? & <- & _), Hy as (? & <- & _). reflexivity. }
   assert (Hne : map (errclass cfg) (bcast_all P e) <> []).
   { rewrite bcast_class. destruct (ranks P); cbn; congruence. }
-  destruct (errclass cfg e =? SUCCESS cfg) eqn:Ec; intros E; inversion E; subst; clear E; cbn [g_w g_s0 g_ctx].
-  - apply Z.eqb_eq in Ec. pose proof Ec as Ec'. apply errclass_success_iff in Ec'. subst e.
-    destruct (Z0 eq_refl) as (So & Op & Le). rewrite ind_0 in F.
+  destruct so as [st|].
+  - (* a stream: SUCCESS whatever errno fopen left *)
+    assert (He : e = 0) by reflexivity.
+    destruct (Z0 ltac:(congruence)) as (Fl & Op & Le).
+    assert (Ec : errclass cfg e = SUCCESS cfg) by (rewrite He; apply errclass_0).
+    rewrite Ec, Z.eqb_refl. intros E; inversion E; subst g' cls; clear E; cbn [g_w g_s0 g_ctx].
     split; [exact Hag|split; [exact Hne|split; [|split]]].
     + rewrite Hall. split; intros; [lia|exact Ec].
-    + intros _. repeat split; auto; lia.
+    + intros _. repeat split; auto; try congruence; lia.
     + intros H. exfalso. apply H. apply (proj2 (Hall _)). exact Ec.
-  - apply Z.eqb_neq in Ec.
-    assert (e <> 0) by (intros ->; apply Ec; apply errclass_0).
-    destruct (Z1 H) as (So & Op & Le). unfold ind in F. destruct (e =? 0) eqn:E0; [apply Z.eqb_eq in E0; congruence|].
+  - destruct (Z1 eq_refl) as (Pos & Fl & Op & Le).
+    assert (He : e = e0) by reflexivity.
+    assert (Ec : errclass cfg e <> SUCCESS cfg) by (rewrite He; intros H; apply errclass_success_iff in H; lia).
+    rewrite (proj2 (Z.eqb_neq _ _) Ec). intros E; inversion E; subst g' cls; clear E; cbn [g_w g_s0 g_ctx].
     split; [exact Hag|split; [exact Hne|split; [|split]]].
     + rewrite Hall. cbn [add_ledger w_fail]. split; intros; [congruence|lia].
     + intros H1. exfalso. apply Ec. apply (proj1 (Hall _)). exact H1.
     + intros _. cbn [add_ledger w_ledger w_open]. repeat split; auto; lia.
 Qed.
+
+(* regression guard for F-C12j: the line before the repair (`retval = errno`) on a fopen that succeeds and leaves errno = ESPIPE
+   (glibc, mode "ab" on a pipe): an error class on both ranks, no context, no handle - and one stream left open *)
+Definition plan_noise_fopen : plan := fun q f k => if (q =? 0) && (f =? FOPEN) && (k =? 0) then Some (e_ESPIPE, NOISE) else None.
+Lemma open_old_judge_refuted :
+  let g := gstate0 (File [1; 2; 3]) plan_noise_fopen in
+  (let '(g', cls) := g_open_with open_judge_old CfgC 2 g c12_SC_IO_WRITE_APPEND in
+   cls = [errclass CfgC e_ESPIPE; errclass CfgC e_ESPIPE] /\ errclass CfgC e_ESPIPE <> SUCCESS CfgC
+   /\ g_ctx g' = false /\ g_s0 g' = None /\ w_ledger (g_w g') = 0 /\ w_open (g_w g') = 1 /\ w_fail (g_w g') = 0)
+  /\ (let '(g', cls) := g_open CfgC 2 g c12_SC_IO_WRITE_APPEND in
+      cls = [SUCCESS CfgC; SUCCESS CfgC] /\ g_s0 g' = Some (mkS MAppend 3) /\ w_open (g_w g') = 1 /\ w_fail (g_w g') = 0).
+Proof. vm_compute. repeat split; congruence. Qed.
 
 Lemma close_spec cfg P g g' cls : 0 < P -> plan_ok (w_plan (g_w g)) ->
   g_close cfg P g = Some (g', cls) ->
@@ -1089,19 +1140,22 @@ Proof. unfold note_err. destruct (e =? 0); reflexivity. Qed.
 Lemma ftell_content w q s w' r e : g_ftell w q s = (w', r, e) -> content w' = content w.
 Proof.
   unfold g_ftell, take. cbn [w_node w_plan w_cnt w_fail w_open w_ledger].
-  destruct (w_plan w q FTELL (w_cnt w q FTELL)) as [[e0 sh]|]; intros E; inversion E; subst;
-    [rewrite note_err_content|]; reflexivity.
+  destruct (w_plan w q FTELL (w_cnt w q FTELL)) as [[e0 sh]|]; [destruct (sh =? NOISE)|]; intros E; inversion E; subst;
+    rewrite ?note_err_content; reflexivity.
 Qed.
 
 Lemma fseek_eff w q s off w' s' r e : g_fseek w q s off = (w', s', r, e) ->
   content w' = content w /\ ((r = 0 /\ s' = mkS (st_mode s) off /\ 0 <= off) \/ (r = -1 /\ s' = s)).
 Proof.
   unfold g_fseek, take. cbn [w_node w_plan w_cnt w_fail w_open w_ledger].
-  destruct (w_plan w q FSEEK (w_cnt w q FSEEK)) as [[e0 sh]|].
-  - intros E; inversion E; subst. rewrite note_err_content. split; [reflexivity|right; auto].
-  - destruct (off <? 0) eqn:Eo; intros E; inversion E; subst.
-    + rewrite note_err_content. split; [reflexivity|right; auto].
-    + split; [reflexivity|left]. apply Z.ltb_ge in Eo. auto.
+  assert (Hnat : forall ne w1, content w1 = content w ->
+            (if off <? 0 then (note_err w1 e_EINVAL, s, -1, e_EINVAL) else (w1, mkS (st_mode s) off, 0, ne)) = (w', s', r, e) ->
+            content w' = content w /\ ((r = 0 /\ s' = mkS (st_mode s) off /\ 0 <= off) \/ (r = -1 /\ s' = s))).
+  { intros ne w1 Hw1. destruct (off <? 0) eqn:Eo; intros E; inversion E; subst.
+    + rewrite note_err_content. split; [exact Hw1|right; auto].
+    + split; [exact Hw1|left]. apply Z.ltb_ge in Eo. auto. }
+  destruct (w_plan w q FSEEK (w_cnt w q FSEEK)) as [[e0 sh]|]; [destruct (sh =? NOISE)|]; try (apply Hnat; reflexivity).
+  intros E; inversion E; subst. rewrite note_err_content. split; [reflexivity|right; auto].
 Qed.
 
 (* fwrite reports r elements: exactly the first r elements of the data are in the file, at the stream's write position *)
@@ -1115,9 +1169,9 @@ Proof.
   intros Hc. unfold g_fwrite, take. cbn [w_node w_plan w_cnt w_fail w_open w_ledger].
   destruct (st_mode s) eqn:Em.
   - intros E; inversion E; subst. rewrite note_err_content. split; [lia|left; auto].
-  - destruct (w_plan w q FWRITE (w_cnt w q FWRITE)) as [[e0 sh]|]; intros E; inversion E; subst;
+  - destruct (w_plan w q FWRITE (w_cnt w q FWRITE)) as [[e0 sh]|]; [destruct (sh =? NOISE)|]; intros E; inversion E; subst;
       rewrite note_err_content; (split; [lia|right; split; [congruence|]]); unfold wpos; rewrite Em; reflexivity.
-  - destruct (w_plan w q FWRITE (w_cnt w q FWRITE)) as [[e0 sh]|]; intros E; inversion E; subst;
+  - destruct (w_plan w q FWRITE (w_cnt w q FWRITE)) as [[e0 sh]|]; [destruct (sh =? NOISE)|]; intros E; inversion E; subst;
       rewrite note_err_content; (split; [lia|right; split; [congruence|]]); unfold wpos; rewrite Em; reflexivity.
 Qed.
 
@@ -1147,8 +1201,9 @@ Proof.
     - set (X := len av / size) in *. unfold av at 1. apply firstn_firstn_le. fold av. unfold len in D. lia. }
   unfold g_fread, take. cbn [w_node w_plan w_cnt w_fail w_open w_ledger].
   destruct (st_mode s) eqn:Em.
-  - destruct (w_plan w q FREAD (w_cnt w q FREAD)) as [[e0 sh]|]; intros E; inversion E; subst; clear E;
+  - destruct (w_plan w q FREAD (w_cnt w q FREAD)) as [[e0 sh]|]; [destruct (sh =? NOISE)|]; intros E; inversion E; subst; clear E;
       rewrite note_err_content.
+    + destruct (K count ltac:(lia)) as [K1 K2]. split; [exact K1|split; [reflexivity|exact K2]].
     + destruct (K (Z.max 0 (Z.min sh count)) ltac:(lia)) as [K1 K2]. split; [exact K1|split; [reflexivity|exact K2]].
     + destruct (K count ltac:(lia)) as [K1 K2]. split; [exact K1|split; [reflexivity|exact K2]].
   - intros E; inversion E; subst. rewrite note_err_content, Z.mul_0_r. split; [lia|split; reflexivity].
@@ -1286,7 +1341,7 @@ Proof.
   intros q f k e s H. unfold plan_partial in H.
   destruct ((q =? 0) && (f =? FWRITE) && (k =? 0)) eqn:E; [|discriminate].
   inversion H; subst. apply andb_true_iff in E. destruct E as [E _]. apply andb_true_iff in E. destruct E as [_ E].
-  apply Z.eqb_eq in E. split; [cbv; congruence|]. intros H1. congruence.
+  apply Z.eqb_eq in E. split; [split; [cbv; congruence|]; intros H1; congruence|cbv; congruence].
 Qed.
 
 Definition g_partial : gstate := mkG (world0 (File []) plan_partial) (Some (mkS MWrite 0)) true.
@@ -1336,7 +1391,7 @@ Lemma plan_rank1_ok : plan_ok plan_rank1.
 Proof.
   intros q f k e s H. unfold plan_rank1 in H.
   destruct ((q =? 1) && (f =? FOPEN) && (k =? 0)) eqn:E; [|discriminate].
-  inversion H; subst. cbv. split; [congruence|auto].
+  inversion H; subst. cbv. split; [split; [congruence|auto]|congruence].
 Qed.
 
 Lemma ex_fault_run :
@@ -1360,3 +1415,45 @@ Lemma errclass_table c :
   /\ class_index c (errclass c e_EINVAL) = IDX_AMODE /\ class_index c (errclass c 0) = 0
   /\ class_index c (errclass c 100000) = IDX_UNKNOWN.
 Proof. destruct c; vm_compute; repeat split; reflexivity. Qed.
+
+(* ------------------------------------------------------------------ "success with errno noise" at the other call sites
+   (findings errno-noise:<site>; the unchanged code reads errno where the return value decides).  Kernel-evaluated witnesses:
+   one entry (errno, NOISE) in an otherwise empty plan, no call fails (w_fail = 0). *)
+Definition plan_noise (q f k e : Z) : plan := fun q' f' k' => if (q' =? q) && (f' =? f) && (k' =? k) then Some (e, NOISE) else None.
+Definition g_noise (pl : plan) (c : list Z) (m : fmode) (p : Z) : gstate := mkG (world0 (File c) pl) (Some (mkS m p)) true.
+
+(* sc_io_write_at / sc_io_read_at: a COMPLETE transfer that leaves errno set is reported with the class of that errno
+   (`retval = sc_io_error_class (errno, &errcode)` after fread / fwrite); a successful position-restoring fseek that leaves errno
+   set likewise (`sc_io_error_class (errno, ..)` instead of the return value) *)
+Lemma noise_at_witness :
+  (let '(g', r) := g_at CfgC true (g_noise (plan_noise 0 FWRITE 0 e_EAGAIN) [] MWrite 0) 0 1 (mkA 0 2 [7; 8]) in
+   r_cls r = errclass CfgC e_EAGAIN /\ r_cls r <> SUCCESS CfgC /\ r_ocount r = 2 /\ w_fail (g_w g') = 0 /\ content (g_w g') = [7; 8])
+  /\ (let '(g', r) := g_at CfgA false (g_noise (plan_noise 0 FREAD 0 e_EINTR) [1; 2; 3] MRead 0) 0 1 (mkA 0 2 []) in
+      r_cls r <> SUCCESS CfgA /\ r_ocount r = 2 /\ r_buf r = [1; 2] /\ w_fail (g_w g') = 0)
+  /\ (let '(g', r) := g_at CfgC true (g_noise (plan_noise 0 FSEEK 1 e_ESPIPE) [] MWrite 0) 0 1 (mkA 0 2 [7; 8]) in
+      r_cls r = errclass CfgC e_ESPIPE /\ r_cls r <> SUCCESS CfgC /\ r_ocount r = 2 /\ w_fail (g_w g') = 0 /\ g_s0 g' = Some (mkS MWrite 0)).
+Proof. vm_compute. repeat split; congruence. Qed.
+
+(* sc_io_close: a successful fclose that leaves errno set makes `!retval == (eclass == sc_MPI_SUCCESS)` false: SC_ABORT *)
+Lemma noise_close_witness :
+  g_close CfgC 2 (g_noise (plan_noise 0 FCLOSE 0 e_EINTR) [1] MWrite 0) = None
+  /\ g_close CfgA 1 (g_noise (plan_noise 0 FCLOSE 0 e_EINTR) [1] MWrite 0) = None.
+Proof. split; reflexivity. Qed.
+
+(* the token-passing fallback: the fopen of a rank > 0 (`errval = errno`): every rank reports the class of the noise, rank 1
+   has transferred nothing and its stream stays open (w_open: 1 before, 2 afterwards); a complete fwrite that leaves errno set:
+   every rank reports the class of the noise although all data is in the file; the re-open of rank 0 (`if (errno != 0)
+   SC_ABORT`): the group aborts *)
+Lemma noise_coll_witness :
+  let args := [mkA 0 1 [1]; mkA 1 1 [2]; mkA 2 1 [3]] in
+  let g pl := mkG (mkW (File []) pl (fun _ _ => 0) 0 1 0) (Some (mkS MWrite 0)) true in
+  (match g_coll true (g (plan_noise 1 FOPEN 0 e_ESPIPE)) 1 args with
+   | Some (g', rs) => map r_cls rs = [errclass CfgC e_ESPIPE; errclass CfgC e_ESPIPE; errclass CfgC e_ESPIPE]
+                      /\ map r_ocount rs = [1; 0; 0] /\ w_fail (g_w g') = 0 /\ w_open (g_w g') = 2 /\ content (g_w g') = [1]
+   | None => False end)
+  /\ (match g_coll true (g (plan_noise 2 FWRITE 0 e_EAGAIN)) 1 args with
+      | Some (g', rs) => map r_cls rs = [errclass CfgC e_EAGAIN; errclass CfgC e_EAGAIN; errclass CfgC e_EAGAIN]
+                         /\ map r_ocount rs = [1; 1; 1] /\ w_fail (g_w g') = 0 /\ w_open (g_w g') = 1 /\ content (g_w g') = [1; 2; 3]
+      | None => False end)
+  /\ g_coll true (g (plan_noise 0 FOPEN 0 e_ESPIPE)) 1 args = None.
+Proof. vm_compute. repeat split; reflexivity. Qed.
